@@ -321,7 +321,10 @@ def aggregate(prop, a, reports, jobs, seed, wall):
                 # for an obligation that is known to be generated and discharged on the unchanged tree.
                 con = C.REGISTRY[ob["contract"]]
                 rp2 = None
-                if hasattr(con, "native_search"):
+                # an exception seen under the engine only (not when the real code is run on the same input) is the
+                # engine's: a gap of a stand-in, not a property of the library -- never confirmed by an unrelated search
+                about_exception = ob["clause"].startswith(("reaches_postcondition[", "raises_only_if[", "raises_if["))
+                if hasattr(con, "native_search") and not about_exception:
                     try:
                         rp2 = con.native_search(case, ob["params"], ob)
                     except Exception as e:  # noqa
